@@ -755,6 +755,30 @@ func wholeProgramEffectFilter(r *Run) {
 	if nWrites == 0 {
 		r.OK("W3", "effect-filter-complete", "", fmt.Sprintf("%d handler call sites examined: every one that can reach a store write is classified as a Cosmos-side effect by the quick rules (%d such sites)", nSites, nEff))
 	}
+	// the table C04 R15 works from: the message cases of StakeAuthorization.Accept in the pinned SDK
+	if acc := w.byName["(github.com/cosmos/cosmos-sdk/x/staking/types.StakeAuthorization).Accept"]; acc != nil && acc.Blocks != nil {
+		got := map[string]bool{}
+		eachInstr(acc, func(in ssa.Instruction) {
+			if ta, ok := in.(*ssa.TypeAssert); ok && strings.HasPrefix(namedName(ta.AssertedType), "Msg") {
+				got[namedName(ta.AssertedType)] = true
+			}
+		})
+		var diff []string
+		for k := range got {
+			if !stakeAuthzMessages[k] {
+				diff = append(diff, "+"+k)
+			}
+		}
+		for k := range stakeAuthzMessages {
+			if !got[k] {
+				diff = append(diff, "-"+k)
+			}
+		}
+		sort.Strings(diff)
+		r.Check(len(diff) == 0, "W3", "table/StakeAuthorization.Accept#message-cases", "", "the tabled staking messages are the cases of Accept's type switch", "the messages StakeAuthorization.Accept handles differ from the table C04 R15 checks: "+strings.Join(diff, " "))
+	} else {
+		r.Bad("W3", "anchor/StakeAuthorization.Accept", "", "cosmos-sdk StakeAuthorization.Accept not found in the whole program")
+	}
 	r.Count("W3 handler call sites examined", nSites)
 	r.Count("W3 call sites the quick rules classify as Cosmos-side effects", nEff)
 	r.Count("W3 other call sites that reach a store write", nWrites)
